@@ -28,7 +28,7 @@ def worker(k, ids):
         benign = sid[0] in 'HK'
         d = os.path.join(ROOT, 'seeded', 'benign', sid) if benign else os.path.join(ROOT, 'seeded', sid)
         meta = json.load(open(os.path.join(d, 'meta.json')))
-        plist = (meta.get('touches_properties') or []) if benign else [meta['property']]
+        plist = (meta.get('touches_properties') or []) if benign else [meta['property']] + list(meta.get('also_check') or [])
         sh('git -C %s checkout -- . && git -C %s clean -fdq' % (r, r))
         rc, out = sh('git -C %s apply %s/patch.diff' % (r, d))
         res = {}
